@@ -147,3 +147,50 @@ func H_two() {
 	}
 	symx.Reach("end")
 }
+
+// H_two_fold: the case-insensitive lookup path. A class whose name differs from the looked-up
+// spelling only in letter case is registered before the goroutines start (or not), and the two
+// goroutines register / look up the spellings "a" and "A": lookups that miss the exact spelling
+// take the case-folding path concurrently with each other and with registrations.
+func H_two_fold() {
+	fold := []string{"a", "A"}
+	opsel := []int{0, 3, 3, 2} // AddClass, GetClass (twice as likely to pair up), AddInterface
+	ops := [2]int{opsel[symx.Choose("op0", 4)], opsel[symx.Choose("op1", 4)]}
+	names := [2]string{fold[symx.Choose("n0", 2)], fold[symx.Choose("n1", 2)]}
+	pre := symx.Choose("pre", 3) // 0 nothing, 1 class "A", 2 class "a"
+	mk := func() data.VM {
+		vm := runtime.NewVM(parser.NewParser())
+		if pre > 0 {
+			vm.AddClass(node.NewClassStatement(nil, fold[2-pre], "", nil, nil, map[string]data.Method{}))
+		}
+		return vm
+	}
+	vm := mk()
+	for _, m := range vm.(*runtime.VM).VerifRegistryMaps() {
+		symx.SharedMap(m)
+	}
+	var wg sync.WaitGroup
+	res := [2]int{}
+	wg.Add(2)
+	for t := 0; t < 2; t++ {
+		t := t
+		go func() {
+			res[t] = do(vm, ops[t], names[t], t+1)
+			wg.Done()
+		}()
+	}
+	wg.Wait()
+	match := false
+	for _, order := range [][2]int{{0, 1}, {1, 0}} {
+		w := mk()
+		var sr [2]int
+		for _, t := range order {
+			sr[t] = doSlot(w, ops[t], names[t], t+1, t+5)
+		}
+		if sr == res {
+			match = true
+		}
+	}
+	symx.Assert(match, "fold: results equal those of some sequential order of the same calls")
+	symx.Reach("end")
+}
